@@ -120,7 +120,8 @@ class Run:
         self.notes = []
 
     def cleanup(self):
-        shutil.rmtree(self.dir, ignore_errors=True)
+        if not os.environ.get("VERIF_KEEP"):
+            shutil.rmtree(self.dir, ignore_errors=True)
 
     # ---------------------------------------------------------------- MC
     def mc(self, module, consts=None, invariants=(), properties=(), constraint=None, view=None, workers=NCPU,
